@@ -156,6 +156,7 @@ static Result check_total(const J &c)
             {
               if (std::string(e.what()).empty()) return Result::fail("empty-exception-message", "query threw an exception without message");
               r.classes.push_back("threw:" + kind);
+              { std::string w = e.what(); const size_t at = w.find(" at line "); const size_t c2 = at == std::string::npos ? std::string::npos : w.find(':', at); r.classes.push_back("exception text: " + (c2 == std::string::npos ? w.substr(0, 100) : w.substr(c2 + 1, 110))); }
               continue;
             }
           for (size_t i = 0; i < out.size(); ++i)
